@@ -15,8 +15,9 @@ TOKENS = ["a", "b", "items", "+m", "*", ".", ":", ",", "[", "]"]
 CONC = {"a": "alpha", "b": "b_2", "items": "items", "+m": "+meta", "*": "*", ".": ".", ":": ":", ",": ",", "[": "[", "]": "]"}
 NAME_OF = {"alpha": "a", "b_2": "b", "meta": "m", "items": "items"}
 # other spellings of the two NAME tokens: names that begin / end with the keyword, digits, underscores, capitals
-NAMES_A = ["alpha", "itemsize", "items_total", "item", "xitems", "_a", "A9", "items_"]
-NAMES_B = ["b_2", "items2", "b", "notitems", "Items", "itemss"]
+# ... and word characters beyond ASCII after the first character (the documented NAME rule is [a-zA-Z_]\\w* on str)
+NAMES_A = ["alpha", "itemsize", "items_total", "item", "xitems", "_a", "A9", "items_", "na\u00efve", "a\u00e9"]
+NAMES_B = ["b_2", "items2", "b", "notitems", "Items", "itemss", "b\u00fc", "b_\u03b2"]
 NAME_OF.update({n: "a" for n in NAMES_A})
 NAME_OF.update({n: "b" for n in NAMES_B})
 WS = ["", "", " ", "  ", "\t", "\n"]
@@ -221,8 +222,23 @@ def run(rep, tier, seed):
         if not lang:
             raise MachineryError("empty language")
         maxlen = max(len(t) for t in lang)
+        # the deep configuration: names and "." only, up to 9 tokens - groups nested under a parent whose branches begin
+        # alike ("a.[b,b.a]", "a.[b.a,b.b]" needs 11), brackets within brackets
+        res_d = tlc.run_tlc("ObserveDSL", "ObserveDSL_deep.cfg", dump=dump, timeout=3000, workers=8, heap="12g")
+        rep.add_tlc("ObserveDSL[deep]", res_d)
+        deep = {}
+        for st in tlaval.iter_dump_states(dump + ".dump"):
+            toks = tuple(st["m"]["s"])
+            if toks not in lang:
+                deep[toks] = st
+        os.unlink(dump + ".dump")
+        if tier == "quick":
+            keys = sorted(deep)
+            rnd.shuffle(keys)
+            deep = {k: deep[k] for k in keys[:2500]}
+        rep.extra["deep_members"] = len(deep)
         n_members = 0
-        for toks, st in lang.items():
+        for toks, st in list(lang.items()) + list(deep.items()):
             den = den_of(st["den"])
             for variant in range(3):
                 names = None if variant == 0 else {"a": rnd.choice(NAMES_A), "b": rnd.choice(NAMES_B)}
